@@ -16,7 +16,7 @@ TECHNIQUE = "bounded exhaustive enumeration of object-file layouts x code bodies
 RULE = ("object files built with the real assembler: 4 section layouts (one .text; two executable sections; executable + data "
         "+ .plt-named executable section; no executable section) x B code bodies (hand-written functions, a body with runs of zero bytes, and C08 byte "
         "windows) x ELF class {elf64, elf32} x EVERY sections list in {absent, [], each single section name of the layout, "
-        "each ordered pair, a name not in the file, present+absent in both orders} x 5 rules x {first, all} modes, and each sections list combined with the other rule options (valid_addr_range covering part of the code, both full-match flags) for 2 rules, plus the real programs under tests/binary (quick: those below 1 MB) through both routes without and with sections lists, all "
+        "each ordered pair, a name not in the file, present+absent in both orders} x 5 rules x {first, all} modes (every second object at a path with blanks and a non-ASCII letter; the matcher objects of the two routes also swapped), and each sections list combined with the other rule options (valid_addr_range covering part of the code, both full-match flags) for 2 rules, plus the real programs under tests/binary (quick: those below 1 MB) through both routes without and with sections lists, all "
         "executed in one process per shard so that consecutive operations have different sections lists. Oracle: the "
         "harness runs `objdump -d -M att [-j s]... file` itself; if objdump exits non-zero the binary route must raise; "
         "otherwise the instruction stream and the result lists of the binary route equal those of the assembly route on "
@@ -178,7 +178,8 @@ def run_shard(shard, tier, h, res, known):
     body2 = body_text(cls, (shard["body"] + 1) % (len(BODIES if cls == 64 else BODIES32)))
     src, names = layout_source(shard["layout"], body, body2.replace("f1", "f2"))
     sp = h.write("c15.s", src)
-    obj = h.path("c15.o")
+    # every second body lives at a path with blanks and a non-ASCII letter (the path is one argument of the tool's command line)
+    obj = h.path("c15 obj \u00e9.o" if shard["body"] % 2 else "c15.o")
     r = subprocess.run(["as", f"--{cls}", sp, "-o", obj], capture_output=True, text=True)
     if r.returncode != 0:
         raise HarnessError("as failed: " + r.stderr[:300])
@@ -200,7 +201,8 @@ def run_shard(shard, tier, h, res, known):
                 if True:
                     res.evaluations += 1
                     case = {"family": "bin", "elfclass": cls, "source": src, "config": conf, "rule": make_rule_doc(rule, conf),
-                            "mode": mode, "size": len(src) + len(str(sections)), "sections_lists_run_before": list(prior[:-1])}
+                            "mode": mode, "size": len(src) + len(str(sections)), "sections_lists_run_before": list(prior[:-1]),
+                            "obj_name": os.path.basename(obj)}
                     open(log, "w").close()
                     try:
                         mb = h.mop(make_rule_doc(rule, conf), binary=True)
@@ -229,6 +231,17 @@ def run_shard(shard, tier, h, res, known):
                         res.fail({**case, "clause": "stream", "expected": exp_stream[:300], "observed": got_stream[:300]}, known)
                     elif got != exp:
                         res.fail({**case, "clause": "result", "expected": exp, "observed": got}, known)
+                    elif rule is RULES[0] and mode == "first":
+                        # the object that just took the binary route is pointed at the text, and the one that took the text
+                        # route at the binary: the route follows the configuration of the call, not the object's history
+                        try:
+                            mb.match_config.input_file_type = h.gd.InputFileType.assembly
+                            ma.match_config.input_file_type = h.gd.InputFileType.binary
+                            sw = (h.match(mb, tpath, ret="stream"), h.match(ma, obj, ret="stream"))
+                        except Exception as e:  # noqa
+                            sw = repr(e)
+                        if sw != (exp_stream, exp_stream):
+                            res.fail({**case, "clause": "route-switch", "expected": exp_stream[:300], "observed": str(sw)[:300]}, known)
                     # the exact command line is not part of the property (equivalent spellings exist): recorded, not judged
                     res.count("objdump_invocations", len(argvs))
                     if any(a != want_argv for a in argvs):
@@ -253,7 +266,7 @@ def replay(case, h):
         run_big({"n": case["n"]} if case["family"] == "big" else {"kind": "corpus", "binary": case["binary"].replace("<repo>", REPO)}, h, r, set())
         return bool(r.fails), str([f["clause"] for f in r.fails])
     sp = h.write("r.s", case["source"])
-    obj = h.path("r.o")
+    obj = h.path(case.get("obj_name", "r.o"))
     subprocess.run(["as", f"--{case['elfclass']}", sp, "-o", obj], check=True)
     sections = case["config"].get("sections")
     cmd = ["objdump", "-d", "-M", "att"] + [x for s in (sections or []) for x in ("-j", s)] + [obj]
@@ -274,4 +287,12 @@ def replay(case, h):
     t = h.write("r.txt", ref.stdout)
     ma = h.mop(case["rule"])
     es, e = h.match(ma, t, ret="stream"), h.match(ma, t, mode=case["mode"])
+    if case.get("clause") == "route-switch":
+        try:
+            mb.match_config.input_file_type = h.gd.InputFileType.assembly
+            ma.match_config.input_file_type = h.gd.InputFileType.binary
+            sw = (h.match(mb, t, ret="stream"), h.match(ma, obj, ret="stream"))
+        except Exception as ex:  # noqa
+            return True, repr(ex)
+        return sw != (es, es), f"streams after swapping the routes equal: {sw == (es, es)}"
     return (gs, g) != (es, e), f"binary={g} text={e} streams_equal={gs == es}"
